@@ -11,13 +11,13 @@ package with mutual cimports.
 
 Cells, each a FRESH interpreter process with its own copy of the sources (single deviations from the
 baseline cell = first seed of the window, canonical order, sequential):
-  seed     every PYTHONHASHSEED of a window of K consecutive values (K = 8 quick / 64 thorough; the window
+  seed     every PYTHONHASHSEED of a window of K consecutive values (K = 8 quick / 16 thorough; the window
            starts at VERIF_SEED * K): whole corpus compiled in canonical order + the package through cythonize.
   cold     every corpus module compiled alone in its own process.
   warm     n sequences (Walecki zig-zag paths and their reverses) in which EVERY ordered pair (m1, m2) of
            corpus modules occurs adjacently: m2 compiled right after m1 in one process.
   batch    the package through cythonize([...], nthreads=n) for EVERY permutation of the 4-module list
-           (24) with nthreads=2 plus 4 orders sequentially (quick); thorough: all 24 x n in {0, 2, 4}.
+           (24) with nthreads=2 plus 4 orders sequentially (quick); thorough: all 24 x n in {0, 2}.
 Oracle: every generated file (.c, .h, _api.h) of every module is byte-identical to the baseline cell.
 """
 import os, sys, json, hashlib, shutil, itertools
@@ -29,9 +29,9 @@ ENGINE = 'E1 pyexplore'
 TECHNIQUE = ('complete window of PYTHONHASHSEED values x all module orders / adjacency pairs x nthreads x cold/warm '
              'processes, byte comparison of all generated files against a baseline cell')
 LEVEL_TEXT = ('A corpus aimed at ordered emission is compiled in fresh interpreter processes under every PYTHONHASHSEED of a '
-              'window of 8 (64 thorough) values, alone in a cold process, directly after every other corpus module in a warm '
+              'window of 8 (16 thorough) values, alone in a cold process, directly after every other corpus module in a warm '
               'process (all ordered pairs adjacent), and as a 4-module package through cythonize in all 24 list orders with '
-              'nthreads 2 (thorough: 0, 2 and 4); all generated .c/.h/_api.h files must be byte-identical to the baseline cell.')
+              'nthreads 2 (thorough: also all 24 with nthreads 0); all generated .c/.h/_api.h files must be byte-identical to the baseline cell.')
 LEVEL_NOTE = ('Hash seeds are covered as a window of K consecutive values (disjoint per VERIF_SEED), not all 2**32; dimensions are '
               'varied one at a time from the baseline cell (plus seed x package batch).  The self-compiled compiler (design bullet, '
               'thorough) is left out: building the compiler with itself takes longer than the tier budget.  Trusted: sha256.')
@@ -121,7 +121,7 @@ def _first_diff(a, b):
 def run(ctx):
     files, mods = corpus_mod.corpus(ctx.tier)
     pkg = corpus_mod.PKG_MODULES
-    K = 8 if ctx.quick else 64
+    K = 8 if ctx.quick else 16
     seeds = [ctx.seed * K + i for i in range(K)]
     base_seed = seeds[0]
     root = ctx.workdir('cells')
@@ -134,7 +134,7 @@ def run(ctx):
     order = mods + [mods[0]] * (n - len(mods))      # pad to even with a repeat of the first module
     for i, path in enumerate(walecki(n)):
         cells.append(('warm%d' % i, 'warm', ','.join(order[j] for j in path), {'seq': [order[j] for j in path]}, base_seed))
-    nthreads = (0, 2) if ctx.quick else (0, 2, 4)
+    nthreads = (0, 2)
     for pi, perm in enumerate(itertools.permutations(pkg)):
         for nt in nthreads:
             if ctx.quick and nt == 0 and pi not in (0, 9, 16, 23):
